@@ -64,6 +64,22 @@ def run(tier):
             p["ops"] += [{"op": "copy", "src": "a", "dst": "b"}, {"op": "liftfile", "file": "b"}]
         p["model"] = progs.model_json(model)
         P.append(p)
+    # files without any FSR signal (annotations on signal 0 and user data only), written, and copied
+    for k, nanno in enumerate([0, 4, 130] + ([rng.randint(1, 260) for _ in range(20)] if thorough else [])):
+        q, model = progs.nofsr_writer_program(rng, len(P) + 1, "c05-nofsr", nanno)
+        q["ops"].append({"op": "liftfile", "file": "a"})
+        if k % 2 == 1:
+            q["ops"] += [{"op": "copy", "src": "a", "dst": "b"}, {"op": "liftfile", "file": "b"}]
+        q["model"] = {"sigs": {}}
+        P.append(q)
+    # histories from the shape graph (spec/JlsShapes.tla): every (shape, call) pair in thorough, a sample in quick
+    import shapes
+    for k, (q, model) in enumerate(shapes.programs(ck, rng, "c05-shape", thorough, None if thorough else 1200, x0=len(P))):
+        q["ops"].append({"op": "liftfile", "file": "a"})
+        if k % 3 == 1:
+            q["ops"] += [{"op": "copy", "src": "a", "dst": "b"}, {"op": "liftfile", "file": "b"}]
+        q["model"] = progs.model_json(model)
+        P.append(q)
     # deep annotation / UTC index pyramids: small decimate factors and enough entries to fill the second and third level
     for (adf, cnt) in [(2, 9), (2, 20), (3, 30), (4, 70)] + ([(2, 70), (5, 130), (10, 1050)] if thorough else []):
         q = progs.anno_program(len(P) + 1, adf, [3 * k + (k % 2) for k in range(cnt)], [0, 5], sig=rng.choice([0, 1]), rng=rng)
@@ -78,13 +94,13 @@ def run(tier):
     # tier B: the FSR chunk sequence of every file is the one the writer model JlsWriter.tla emits for the same calls
     cfgp = C.os.path.join(C.scratch(), "JlsWriterMC_c05.cfg")
     open(cfgp, "w").write("SPECIFICATION Spec\nCONSTANTS\n  Spd = 4\n  Sdf = 2\n  Eps = 4\n  Sumdf = 2\n  MaxSamples = %d\n  Sizes = {1, 3, 4, 9}\n"
-                          "INVARIANT Inv\nCHECK_DEADLOCK FALSE\n" % (70 if thorough else 44))
+                          "INVARIANT Inv\nCHECK_DEADLOCK FALSE\n" % (56 if thorough else 44))
     r = C.tlc("JlsWriterMC", cfgp, timeout=1800, heap="8g")
     if not ck.add_mc("JlsWriter spd=4 sdf=2 eps=4 sumdf=2 (chunk emission: tiling, index entries, nothing pending after close, reader descent finds every sample)", r):
         ck.violation({"where": "model", "config": "JlsWriterMC", "invariant": r.violated, "reason": "JlsWriter.tla violates " + str(r.violated)})
     cfgp2 = C.os.path.join(C.scratch(), "JlsWriterMC_c05b.cfg")
     open(cfgp2, "w").write("SPECIFICATION Spec\nCONSTANTS\n  Spd = 6\n  Sdf = 2\n  Eps = 6\n  Sumdf = 3\n  MaxSamples = %d\n  Sizes = {1, 5, 6, 13}\n"
-                           "INVARIANT Inv\nCHECK_DEADLOCK FALSE\n" % (120 if thorough else 62))
+                           "INVARIANT Inv\nCHECK_DEADLOCK FALSE\n" % (80 if thorough else 62))
     r = C.tlc("JlsWriterMC", cfgp2, timeout=1800, heap="8g")
     if not ck.add_mc("JlsWriter spd=6 sdf=2 eps=6 sumdf=3", r):
         ck.violation({"where": "model", "config": "JlsWriterMC-b", "invariant": r.violated, "reason": "JlsWriter.tla violates " + str(r.violated)})
